@@ -242,6 +242,10 @@ def main(argv):
     write_evidence(cfg, a, t0, cases, results, len(violations), stmts, qeds, files, assum, notes, known_hits, extra_cov)
     if a.replay and not violations:
         print("replay: no violation on the current tree (verdict codes: %s)" % (sorted(set(results.values())) or [0]))
+    # scratch of this run (generated cases, Coq case files): the replay files under out/replays are self-contained
+    if not os.environ.get("VERIF_KEEP_RUN"):
+        import shutil
+        shutil.rmtree(workdir, ignore_errors=True)
     return 1 if violations else 0
 
 
